@@ -46,6 +46,23 @@ ReceivedOk(r) == /\ Len(r) > Len(RecvPrefix) /\ SubSeq(r, 1, Len(RecvPrefix)) = 
                  /\ r[Len(r)] = 10 /\ Cardinality({i \in 1..Len(r) : r[i] = 10}) = 2
                  /\ \A i \in 1..Len(r) : SafeByte(r[i])
 
+\* exact form: every string that comes from the peer (TCPREMOTEHOST, HELO name, TCPREMOTEINFO, TCPREMOTEIP) or from the
+\* environment (local name) appears with every byte outside [A-Za-z0-9.@%+/=:-[]] replaced by '?':
+\*   "Received: from " host [" (HELO " helo ")"] " (" [info "@"] ip ")" LF "  by " local " with " proto "; " date LF
+PeerSafe(b) == b \in 48..57 \/ b \in 65..90 \/ b \in 97..122 \/ b \in {46, 64, 37, 43, 47, 61, 58, 45, 91, 93}
+San(x) == [i \in 1..Len(x) |-> IF PeerSafe(x[i]) THEN x[i] ELSE 63]
+Lower(x) == [i \in 1..Len(x) |-> IF x[i] \in 65..90 THEN x[i] + 32 ELSE x[i]]
+StartsWithAt(r, p, at) == Len(r) >= at + Len(p) - 1 /\ SubSeq(r, at, at + Len(p) - 1) = p
+\* f = [host, helo, hashelo, info, hasinfo, ip, local, proto] (byte sequences / flags)
+ReceivedHead(f, withhelo) ==
+  RecvPrefix \o San(f.host) \o (IF withhelo THEN <<32, 40, 72, 69, 76, 79, 32>> \o San(f.helo) \o <<41>> ELSE <<>>)
+  \o <<32, 40>> \o (IF f.hasinfo THEN San(f.info) \o <<64>> ELSE <<>>) \o San(f.ip) \o <<41, 10, 32, 32, 98, 121, 32>> \o San(f.local)
+  \o <<32, 119, 105, 116, 104, 32>> \o f.proto \o <<59, 32>>
+ReceivedExact(r, f) ==
+  /\ ReceivedOk(r)
+  /\ \/ (f.hashelo /\ StartsWithAt(r, ReceivedHead(f, TRUE), 1))
+     \/ ((~f.hashelo \/ Lower(f.helo) = Lower(f.host)) /\ StartsWithAt(r, ReceivedHead(f, FALSE), 1))     \* the HELO name is shown only when it differs from the host name
+
 Sel(seq, keep) == LET idx == {i \in 1..Len(seq) : keep[i]} IN [j \in 1..Cardinality(idx) |-> seq[CHOOSE i \in idx : Cardinality({k \in idx : k < i}) = j - 1]]
 
 IngestVerdict(r) ==
@@ -60,6 +77,7 @@ IngestVerdict(r) ==
   IF anypos /\ ~committed THEN "AcknowledgedButNotQueued"
   ELSE IF anypos /\ r.got # r.body THEN "AcknowledgedMessageIsNotTheOneQueued"
   ELSE IF anypos /\ ~ReceivedOk(r.recv) THEN "ReceivedFieldMalformedOrUnsafe"
+  ELSE IF anypos /\ r.pf.known /\ ~ReceivedExact(r.recv, r.pf) THEN "ReceivedFieldDoesNotNameThePeerSafely"
   ELSE IF anypos /\ (r.gs # r.xs \/ r.gr # handed) THEN "QueuedEnvelopeIsNotTheAcknowledgedOne"
   ELSE IF r.proto = "qmtp" /\ \E i \in 1..n : Pos(ackfor(i)) /\ r.rc[i] # "ok" THEN "RefusableRecipientAcknowledged"
   ELSE IF committed /\ ~r.cut /\ ~anypos THEN "QueuedButNotAcknowledged"
